@@ -1,14 +1,12 @@
 #!/bin/bash
 # usage: tools/seedall.sh <results.tsv> <seedroot>... : for every <seedroot>/Cnn.out run tools/seedtest.sh with that property's own check
 # (sequentially: the translator-backed checks regenerate coq/Gen from EON_REPO, so two must not run at once); one line per seed.
-R=$1; shift; : > $R
+R=$1; shift; : > $R; nosync=
 for S in "$@"; do for d in $S/C*.out; do
   id=$(basename $d .out)
-  out=$(TIER=${TIER:-quick} ${VERIF:-/verif}/tools/seedtest.sh $d $id 2>&1)
+  out=$(TIER=${TIER:-quick} SEEDTEST_NOSYNC=$nosync /verif/tools/seedtest.sh $d $id 2>&1); nosync=1
   db=$(echo "$out" | grep -o 'demo on unchanged: exit=[0-9]*' | grep -o '[0-9]*$'); da=$(echo "$out" | grep -o 'demo on changed:   exit=[0-9]*' | grep -o '[0-9]*$')
   ck=$(echo "$out" | grep "^check $id:" | sed 's/ ::.*//')
   what=$(echo "$out" | grep "^check $id:" | sed 's/.*:: *//' | cut -c1-260)
   printf '%s\t%s\t%s\t%s\t%s\t%s\n' "$(basename $S)" "$id" "$db" "$da" "$ck" "$what" >> $R
 done; done
-# leave coq/Gen describing /repo again
-cd ${VERIF:-/verif} && ./check setup > /tmp/mw/setup_after_seedall.log 2>&1; echo "setup rc=$?" >> $R
